@@ -306,6 +306,36 @@ def HeloF : Fields Helo where
     | .Options => some (.hopts m.options)
     | _ => none
 
+/-! ### EntryList: a list of entries, decoded element by element (msgp-generated) -/
+
+inductive LStmt
+  | plain (s : Stmt)
+  | resize                         -- `if cap(*z) >= int(sz) { *z = (*z)[:sz] } else { *z = make(EntryList, sz) }`
+  | forRange (body : List Stmt)    -- `for i := range *z { body }`, the body working on the element `(*z)[i]`
+
+def ListF : Fields (List EntryExt) where
+  put _ _ _ := none
+  get _ _ := none
+
+/-- the receiver after the resize: `sz` elements — the old ones where there were any (within the capacity the real slice may even
+show older ones), zero values otherwise; the loop overwrites both fields of every element, so it does not matter which -/
+def resizeTo (n : Nat) (l : List EntryExt) : List EntryExt := l.take n ++ List.replicate (n - l.length) { ts := { sec := 0, nsec := 0 }, record := .nil }
+
+/-- one pass of the loop body per element, in order; an error inside the body is the function's error -/
+def mapEl (p : Path) (body : List Stmt) : List EntryExt → Bytes → Res (List EntryExt)
+  | [], b => .ok [] b
+  | e :: es, b =>
+    (execs EntryExtF p body (fun _ e' b' => .ok e' b') 0 e b).bind fun e' b1 => (mapEl p body es b1).map (e' :: ·)
+
+def execL (p : Path) : List LStmt → (Nat → List EntryExt → Bytes → Res (List EntryExt)) → Nat → List EntryExt → Bytes → Res (List EntryExt)
+  | [], k, sz, l, b => k sz l b
+  | .plain st :: rest, k, sz, l, b => exec ListF p st (execL p rest k) sz l b
+  | .resize :: rest, k, sz, l, b => execL p rest k sz (resizeTo sz l) b
+  | .forRange body :: rest, k, sz, l, b => (mapEl p body l b).bind fun l' b' => execL p rest k sz l' b'
+
+def runL (p : Path) (body : List LStmt) (recv : List EntryExt) (b : Bytes) : Res (List EntryExt) :=
+  execL p body (fun _ _ _ => .panic "missing return") 0 recv b
+
 end FV.Sk
 
 namespace FV
